@@ -356,3 +356,63 @@ Print Assumptions C13_class_partial.
 Print Assumptions model_hyps.
 Print Assumptions refuted_not_consistent.
 Print Assumptions C13_dict_eq_repr_refuted.
+
+(* ------------------------------------------------------------------------------------------- *)
+(* Round trip through __getnewargs__ (pickle protocol 2: cls.__new__(cls, *newargs), and eval(repr)
+   for classes whose repr prints exactly the constructor arguments): if the rebuilt object agrees with
+   the original on every attribute listed in __getnewargs__, and every attribute that repr / == reads
+   is listed there, then the rebuilt object has the same repr data and is == to the original. *)
+Definition tok_in_newargs (newargs : list nat) (t : tok) : bool :=
+  match t with TF f _ => existsb (Nat.eqb f) newargs | TSelfId => false end.
+
+Definition conj_in_newargs (newargs : list nat) (c : conj) : bool :=
+  match c with
+  | Cmp _ fl _ _ fr _ => existsb (Nat.eqb fl) newargs && existsb (Nat.eqb fr) newargs
+  | CRepr | CHash => true
+  end.
+
+Definition newargs_cover (s : spec) (newargs : list nat) : bool :=
+  forallb (tok_in_newargs newargs) (rep s) && forallb (conj_in_newargs newargs) (eqs s)
+  && match hsh s with HOfRepr => true | HToks l => forallb (tok_in_newargs newargs) l end.
+
+Section RoundTrip.
+  Variables (O V R : Type).
+  Variable fld : O -> nat -> V.
+  Variable oid : O -> R.
+  Variable veq : V -> V -> bool.
+  Variable vw : nat -> V -> V.
+  Variable rend : nat -> V -> R.
+  Hypothesis veq_refl : forall x, veq x x = true.
+
+  Lemma in_newargs f l : existsb (Nat.eqb f) l = true -> In f l.
+  Proof. intro E. apply existsb_exists in E as (x & I & E). apply Nat.eqb_eq in E. subst. exact I. Qed.
+
+  Theorem C13_roundtrip_newargs : forall s newargs a b,
+    newargs_cover s newargs = true ->
+    forallb proper (eqs s) = true ->
+    (forall f, In f newargs -> fld b f = fld a f) ->
+    @reprdata O V R fld oid rend s b = @reprdata O V R fld oid rend s a /\
+    @hashdata O V R fld oid rend s b = @hashdata O V R fld oid rend s a /\
+    @eqP O V R fld oid veq vw rend s a b.
+  Proof.
+    intros s newargs a b Cv Pr Ag. unfold newargs_cover in Cv.
+    apply andb_prop in Cv as [Cv C3]. apply andb_prop in Cv as [C1 C2].
+    assert (Tk : forall l, forallb (tok_in_newargs newargs) l = true ->
+                 map (@tokval O V R fld oid rend b) l = map (@tokval O V R fld oid rend a) l).
+    { intros l F. rewrite forallb_forall in F. apply map_ext_in. intros t I. specialize (F t I).
+      destruct t as [f k|]; simpl in *; [|discriminate]. rewrite (Ag f (in_newargs f newargs F)). reflexivity. }
+    assert (Rp : @reprdata O V R fld oid rend s b = @reprdata O V R fld oid rend s a) by (apply Tk; auto).
+    assert (Hs : @hashdata O V R fld oid rend s b = @hashdata O V R fld oid rend s a).
+    { unfold hashdata. destruct (hsh s); auto. }
+    repeat split; auto.
+    unfold eqP. apply Forall_forall. intros c I.
+    rewrite forallb_forall in C2, Pr. specialize (C2 c I). specialize (Pr c I).
+    destruct c as [ol fl vl orr fr vr| |]; simpl in *; auto.
+    apply andb_prop in C2 as [A1 A2].
+    pose proof (Ag fl (in_newargs fl newargs A1)) as E1. pose proof (Ag fr (in_newargs fr newargs A2)) as E2.
+    destruct ol, orr; try discriminate; apply andb_prop in Pr as [P1 P2]; apply Nat.eqb_eq in P1, P2; subst;
+      simpl; rewrite ?E1, ?E2; apply veq_refl.
+  Qed.
+End RoundTrip.
+
+Print Assumptions C13_roundtrip_newargs.
